@@ -12,8 +12,9 @@
    CalculateRealloc returned as an arbitrary oracle value (only required to be
    a Go map, i.e. unique keys), so the theorems hold whatever the scheduler
    does. *)
-From Coq Require Import String List ZArith.
-From Verif Require Import Base.GoFloat Cpumem.Types Cpumem.Node Cpumem.BookProofs.
+From Coq Require Import String List ZArith Reals.
+From Flocq Require Import IEEE754.Binary.
+From Verif Require Import Base.GoFloat Cpumem.Types Cpumem.Node Cpumem.BookProofs Cpumem.BookCpuProofs Cpumem.BookGridProofs.
 Import ListNotations.
 
 (* per-core pieces, memory, per-NUMA memory: every history, every oracle *)
@@ -44,3 +45,37 @@ Theorem C08_rollback_release_int : forall (info : node_info) (ws : list wres) (i
   usage_equiv_int (ni_usage info2) (ni_usage info) /\ ni_cap info2 = ni_cap info.
 Proof. exact decr_then_incr_int. Qed.
 Print Assumptions C08_rollback_release_int.
+
+(* total CPU.  CPU amounts are binary64 and every update goes through
+   utils.Round, so the sum is read on the decimal grid of 1e-9 units:
+   [cpu_is u k] = u is finite and has the real value of the double nearest to
+   k * 1e-9; [kf w] = the workload's cpu request in 1e-9 units; [on_grid w] = the
+   request is such a double with 0 <= k <= 2^49 (any decimal with at most nine
+   places up to about 5.6e5 CPUs); [bounded_run] = the running total stays
+   <= 2^49 units.  Then, for every history and every oracle value on the grid,
+   usage.CPU is exactly (as a real value; the sign of a zero is not tracked) the
+   double nearest to the exact decimal sum of the live workloads' requests. *)
+Theorem C08_exact_cpu : forall (info : node_info) (h : list op),
+  f_finite (nr_cpu (ni_usage info)) = true -> B2R 53 1024 (nr_cpu (ni_usage info)) = 0%R ->
+  Forall op_grid h -> bounded_run (mkState info []) h ->
+  inv_cpu (run (mkState info []) h).
+Proof. exact cpu_all_histories. Qed.
+Print Assumptions C08_exact_cpu.
+
+Theorem C08_step_cpu : forall (s : state) (o : op), op_grid o -> inv_cpu s ->
+  (ktotal (st_live (sr_state (step s o))) <= BND)%Z -> inv_cpu (sr_state (step s o)).
+Proof. exact cpu_step. Qed.
+Print Assumptions C08_step_cpu.
+
+Theorem C08_rollback_cpu : forall (info : node_info) (ws : list wres) (info1 info2 : node_info) (K : Z),
+  cpu_is (nr_cpu (ni_usage info)) K -> (0 <= K)%Z -> (K + ktotal ws <= BND)%Z -> Forall on_grid ws ->
+  set_node_resource_usage info None ws true true = inr info1 ->
+  set_node_resource_usage info1 None ws true false = inr info2 ->
+  cpu_is (nr_cpu (ni_usage info2)) K.
+Proof. exact cpu_rollback. Qed.
+Print Assumptions C08_rollback_cpu.
+
+(* utils.Round keeps sums on the grid: the float fact behind the three theorems above *)
+Theorem C08_round_keeps_grid : grid_closed.
+Proof. exact grid_closed_holds. Qed.
+Print Assumptions C08_round_keeps_grid.
